@@ -188,6 +188,7 @@ def check(ctx):
                                  isinstance(h.body[-1].value, ast.Constant) and h.body[-1].value.value is False))
         ctx.check(ok, "T10-raises", h if h is not None else b, "build(): except %s: ... %s" % (cls, want),
                   "build must report %s as a failed build" % cls)
+    actor_typestate(ctx, scope)
     # ---- D-scope
     fns = list(scope.values())
     found = defects.run(repo, fns, ("D1", "D3", "D4", "D5", "D6", "D8"))
@@ -199,6 +200,86 @@ def check(ctx):
     for q, f in scope.items():
         if q not in badf:
             ctx.ok("D-scope", f, "no internal-error construct in %s" % q)
+
+
+def _is_inst(e, target):
+    return isinstance(e, ast.Call) and call_name(e) == "isinstance" and len(e.args) == 2 and src(e.args[0]) == target
+
+
+def _implies(e, target, when):
+    """does `e` being `when` (True/False) imply isinstance(target, ...)"""
+    if when:
+        if _is_inst(e, target):
+            return True
+        if isinstance(e, ast.BoolOp) and isinstance(e.op, ast.And):
+            return any(_implies(v, target, True) for v in e.values)
+        if isinstance(e, ast.UnaryOp) and isinstance(e.op, ast.Not):
+            return _implies(e.operand, target, False)
+        return False
+    if isinstance(e, ast.UnaryOp) and isinstance(e.op, ast.Not):
+        return _implies(e.operand, target, True)
+    if isinstance(e, ast.BoolOp) and isinstance(e.op, ast.Or):
+        return any(_implies(v, target, False) for v in e.values)
+    return False
+
+
+def actor_typestate(ctx, scope):
+    """Act.actor is a name string until Act.resolve() replaced it by an Actor instance: every
+    `<E>.actor.<attr>` in resolve-time code must be preceded by isinstance(<E>.actor, ...) (test or
+    earlier operand of the same and/or chain), by <E>.resolve(), or by an assignment to <E>.actor"""
+    ctx.rule("T1-actorstate", "every dereference <E>.actor.<attr> in build scope is dominated by isinstance(<E>.actor, Actor), "
+             "<E>.resolve() or an assignment to <E>.actor")
+    k = 0
+    for q, f in scope.items():
+        if not q.startswith("ioflo/base/"):
+            continue
+        sites = [n for n in walk_no_nested(f) if isinstance(n, ast.Attribute) and isinstance(n.value, ast.Attribute)
+                 and n.value.attr == "actor" and isinstance(n.ctx, ast.Load)]
+        sites += [n for c in ast.walk(f) if isinstance(c, (ast.GeneratorExp, ast.ListComp, ast.Lambda)) for n in ast.walk(c)
+                  if isinstance(n, ast.Attribute) and isinstance(n.value, ast.Attribute) and n.value.attr == "actor"]
+        if not sites:
+            continue
+        V = FuncView(ctx, f)
+        for a in sites:
+            k += 1
+            target = src(a.value)            # '<E>.actor'
+            recv = src(a.value.value)        # '<E>'
+            # in-expression guard: earlier operand of an enclosing and/or chain
+            ok = False
+            c, p = a, parent(a)
+            while p is not None and not isinstance(p, ast.stmt) and not ok:
+                if isinstance(p, ast.BoolOp):
+                    idx = [i for i, v in enumerate(p.values) if c is v or c in list(ast.walk(v))]
+                    if idx:
+                        prior = p.values[:idx[0]]
+                        if isinstance(p.op, ast.And):
+                            ok = any(_implies(v, target, True) for v in prior)
+                        else:
+                            ok = any(_implies(v, target, False) for v in prior)
+                c, p = p, parent(p)
+            nodes = [n for n in V.cfg.nodes if any(x is a for x in V.cfg.walk_node(n))]
+            if not ok and nodes:
+                for t in V.cfg.nodes:
+                    if t.kind != "test":
+                        continue
+                    e = t.ast.test
+                    if _implies(e, target, True) and V.dominated_by_edge(nodes, t, "T"):
+                        ok = True
+                    elif _implies(e, target, False) and V.dominated_by_edge(nodes, t, "F"):
+                        ok = True
+                    if ok:
+                        break
+            if not ok and nodes:
+                pre = V.call_nodes(recv + ".resolve") + V.stores(target)
+                pre = [x for x in pre if x.id != nodes[0].id]
+                ok = bool(pre) and V.dominated(nodes, pre)
+            if not ok and not nodes:
+                ok = False
+            ctx.check(ok, "T1-actorstate", a, "%s in %s" % (src(a), q.split(":")[1]),
+                      "%s is still the actor's *name* (a str) until that act has been resolved; this dereference is "
+                      "not guarded by isinstance(%s, Actor), %s.resolve() or an assignment: AttributeError while "
+                      "building a valid script whose acts are resolved in a different order" % (target, target, recv))
+    ctx.floor("T1-actorstate:sites", k, 6)
 
 
 def complex_flow(repo, fns):
